@@ -38,6 +38,7 @@ func TestProp(t *testing.T) {
 	env := vh.GetEnv()
 	rep := vh.NewReport("C02", "exploration")
 	rep.Rule("per generated value (SessionState / StateParameter of a shape: empty, typical, unicode, JSON-hostile, extreme times, 0-300 groups, tokens up to several KB) sealed 3x under a random 32/64-byte key: round trip at every entry point, seal freshness, no-plaintext tripwire, then a tamper corpus derived from the genuine string (every single-bit flip for the first N values, sampled + all tag/nonce bits for the rest; every proper prefix; 1-64 byte/char extensions; single-char substitutions; std alphabet, padding, CR/LF/space/tab insertion, non-canonical trailing bits, percent-encoding, case changes, foreign encodings; nonce/tag splices of two genuine values; foreign and related keys; undecodable plaintexts sealed by the key holder) presented to Decrypt, Unmarshal (pre-filled destination), UnmarshalSession and LoadSession; plus random strings of every length 0-200 and a slice of the corpus as state / CSRF cookie through the real proxy's /oauth2/callback. distinct = (tamper family, value kind, value shape, key size) and (callback position, family), counted when the string reached the entry points")
+	rep.Assume("long-run freshness: per case ONE cipher instance and a twin built from the same secret each perform N seals (Marshal and raw Encrypt) cycling over 1-4 values, half sequentially and half from 4 goroutines; all strings and all nonces (last 16 decoded bytes) must be pairwise distinct across both instances. The low-entropy check (all-zero / <= 4 distinct byte values / repeated 4-byte pattern) and the counter check (consecutive nonces differing in <= 2 bytes) are tripwires, not randomness tests")
 	rep.Assume("AES-SIV (miscreant) is cryptographically sound; what is observed is framing, encoding and error handling around it")
 	rep.Assume("'exactly the original value' for time.Time = the same instant to the nanosecond AND the same UTC offset; the monotonic clock reading and the *time.Location identity/name are not part of the value (encoding/json carries neither). Generated times have years 0..9999 and zone offsets of whole minutes with |offset| < 24h, the domain RFC 3339 can express")
 	rep.Assume("string fields are valid UTF-8 (encoding/json replaces invalid bytes by U+FFFD); nil and empty group lists are distinguished")
@@ -72,6 +73,18 @@ func TestProp(t *testing.T) {
 			cbWall = time.Since(t2).Seconds()
 		}()
 	}
+	// the long-run freshness stream also runs next to the value stream
+	lrCases, lrSeals := env.Pick(8, 40), env.Pick(600, 5000)
+	var lrWall float64
+	if only, skip := env.Only(streamLongRun); !skip {
+		cbDone.Add(1)
+		go func() {
+			defer cbDone.Done()
+			t3 := time.Now()
+			vh.ForEach(lrCases, 4, only, func(k int) { runLongRun(rep, env, k, lrSeals) })
+			lrWall = time.Since(t3).Seconds()
+		}()
+	}
 	if only, skip := env.Only(streamValue); !skip {
 		// phase A: per value everything except shards 1.. of the big tamper loops; phase B: those shards
 		pend := make([]*pending, nValues)
@@ -98,8 +111,10 @@ func TestProp(t *testing.T) {
 		vh.ForEach(201*randomReps, 0, only, func(j int) { runRandom(rep, env, j) })
 	}
 	rep.Extra("wall_random_s", time.Since(t1).Seconds())
+	rep.Extra("longrun_seals_per_instance", lrSeals)
 	cbDone.Wait()
 	rep.Extra("wall_callback_s", cbWall)
+	rep.Extra("wall_longrun_s", lrWall)
 	rep.Extra("values", nValues)
 	rep.Extra("tamper_families", allFamilies)
 	rep.Extra("values_bitflip_exhaustive", exhaustiveN)
@@ -124,6 +139,11 @@ func TestProp(t *testing.T) {
 		rep.Floor("family_"+famKey, env.Pick(300, 15000))
 		rep.Floor("family_"+famKeyholder, env.Pick(250, 12000))
 		rep.Floor("family_"+famRandom, 201*randomReps*4)
+		rep.Floor("longrun_seals", lrCases*lrSeals*2*9/10)
+		rep.Floor("longrun_distinct_nonces", lrCases*lrSeals*2*9/10)
+		rep.Floor("longrun_concurrent_seals", lrCases*lrSeals*2/3)
+		rep.Floor("longrun_raw_encrypts", lrCases*lrSeals)
+		rep.Floor("longrun_marshals", lrCases*lrSeals/3)
 		rep.Floor("callback_attempts", flows*100)
 		rep.Floor("callback_genuine_logins", flows)
 		rep.Floor("callback_state_is_reencoded_csrf_attempts", flows*3)
